@@ -267,10 +267,13 @@ impl Endpoint {
         dst_cid: ConnectionId,
         buf: &mut Vec<u8>,
     ) -> Option<Transmit> {
-        if self
-            .last_stateless_reset
-            .is_some_and(|last| last + self.config.min_reset_interval > now)
-        {
+        if self.last_stateless_reset.is_some_and(|last| {
+            // An interval that reaches past the end of `Instant`'s range never elapses
+            match last.checked_add(self.config.min_reset_interval) {
+                Some(next) => next > now,
+                None => true,
+            }
+        }) {
             debug!("ignoring unexpected packet within minimum stateless reset interval");
             return None;
         }
